@@ -289,6 +289,36 @@ func c19Big(j c19Job) (res c19Res) {
 			}
 		}
 		res.Sample = "oversize key (2^24 bytes) / value (2^28 bytes) via Set, Merge, Del and the Alloc* variants between two valid entries: exact error, neighbours intact"
+	case "uneven":
+		// key lengths so uneven that the in-memory key index of the persisted segment is cut short (the index's data area
+		// is sized from the average key length): eight keys, one of them 40 bytes long at every position in turn
+		for pos := 0; pos < 8; pos++ {
+			for _, build := range []string{"plain", "alloc"} {
+				b := &BatchSpec{}
+				var probes []string
+				for i := 0; i < 8; i++ {
+					k := string(rune('a' + i))
+					if i == pos {
+						k = strings.Repeat(k, 40)
+					}
+					probes = append(probes, k)
+					b.Ops = append(b.Ops, Op{Kind: 'S', Key: k, Val: "v" + k[:1], Alloc: build == "alloc"})
+				}
+				probes = append(probes, "zz", "zy", "", "dd")
+				cfg := Config{Backing: "store", MinMergePct: 100, KeysIndexMax: 64, KeysIndexMin: 1}
+				_, viol, infra, stages := c19Pipeline(cfg, b, probes, fmt.Sprintf("eight keys with a 40-byte key at position %d, built %s, %s", pos, build, cfg))
+				res.Runs++
+				res.Stages += stages
+				if infra != "" {
+					res.Infra = infra
+					return
+				}
+				if viol != nil {
+					res.Viols = append(res.Viols, *viol)
+				}
+			}
+		}
+		res.Sample = "eight keys of which one is 40 bytes long (every position), key index quota 64 bytes: the index of the persisted segment ends early; all 11 pipeline stages"
 	case "bigkey", "bigval":
 		k, v := "bk", "bv"
 		if j.Big == "bigkey" {
@@ -323,6 +353,7 @@ func checkC19(prop, tier string) int {
 		}
 	}
 	jobs = append(jobs, Job{Kind: "c19", Data: mustJSON(c19Job{Tier: tier, Big: "limits"})})
+	jobs = append(jobs, Job{Kind: "c19", Data: mustJSON(c19Job{Tier: tier, Big: "uneven"})})
 	if tier == "thorough" {
 		jobs = append(jobs, Job{Kind: "c19", Data: mustJSON(c19Job{Tier: tier, Big: "bigkey"})}, Job{Kind: "c19", Data: mustJSON(c19Job{Tier: tier, Big: "bigval"})})
 	}
@@ -369,7 +400,7 @@ func checkC19(prop, tier string) int {
 			"traces_validated_against_impl": tot.Runs,
 			"evaluations":                   tot.Runs,
 			"distinct_nontrivial":           len(sigma)*len(sigma) - 1,
-			"rule":                          "every (key, value) pair of the byte-string alphabet (empty, 0x00, 0xff, store magic look-alikes with plausible and absurd length fields, 4095/4096/4097-byte strings) as a single-entry batch and as the middle entry of a three-entry batch, built plain / Alloc* / mixed, under DeferredSort+CachePersisted off/on, through 8 fixed pipeline stages (memory, merger, persist, reopen, appended batch, reopen, full compaction, reopen) with a model comparison after each; oversize entries at exactly 2^24 / 2^28 bytes are rejected; states = pipeline stages compared; distinct_nontrivial = distinct non-trivial (key,value) pairs",
+			"rule":                          "every (key, value) pair of the byte-string alphabet (empty, 0x00, 0xff, store magic look-alikes with plausible and absurd length fields, 4095/4096/4097-byte strings) as a single-entry batch and as the middle entry of a three-entry batch, built plain / Alloc* / mixed, under DeferredSort+CachePersisted off/on, through 8 fixed pipeline stages (memory, merger, persist, reopen, appended batch, reopen, full compaction, reopen) with a model comparison after each; oversize entries at exactly 2^24 / 2^28 bytes are rejected; eight keys of very uneven length with a key index that ends early; states = pipeline stages compared; distinct_nontrivial = distinct non-trivial (key,value) pairs",
 			"samples":                       samples,
 			"exhaustive":                    infra == 0,
 			"alphabet_size":                 len(sigma),
